@@ -71,5 +71,46 @@ stats = {
     "that": table("that", formulate_theta_hat_angle, 2),
     "zeta": table("zeta", formulate_zeta_angle, 3),
 }
+# ---- Kallen on structurally equal / vanishing arguments (a shortcut branch of evaluate() would show here)
+one, four, quarter = sp.Integer(1), sp.Integer(4), sp.Rational(1, 4)
+KALLEN_CASES = {
+    "gen_kallen_xyy": (x, y, y), "gen_kallen_xxz": (x, x, z), "gen_kallen_xyx": (x, y, x),
+    "gen_kallen_xxx": (x, x, x), "gen_kallen_x00": (x, 0, 0), "gen_kallen_0yy": (0, y, y),
+    "gen_kallen_xy0": (x, y, 0), "gen_kallen_x0z": (x, 0, z), "gen_kallen_000": (0, 0, 0),
+    "gen_kallen_sq_equal": (x, y**2, y**2), "gen_kallen_sq_first": (x**2, x**2, z**2),
+    "gen_kallen_num_44": (x, four, four), "gen_kallen_num_q": (x, quarter, quarter),
+    "gen_kallen_num_11": (one, one, z),
+}
+for name, args in KALLEN_CASES.items():
+    defs[name] = Kallen(*[sp.sympify(a) for a in args]).doit()
+
+# ---- the angle expressions with EQUAL MASS SYMBOLS substituted before doit() (the builders create their
+# symbols themselves, so equal symbols can only be introduced by substitution into the returned,
+# still unevaluated expression; this is the fixed-equal-masses workflow).  One entry per distinct
+# arccos (positive orientation) and per identification: (tag, generic tree, variant tree);
+# tag 0: m_2:=m_1, 1: m_3:=m_1, 2: m_3:=m_2, 3: m_2:=m_1 and m_3:=m_1.
+m0s, m1s, m2s, m3s = sp.symbols("m_0 m_1 m_2 m_3", nonnegative=True)
+IDENT = {0: {m2s: m1s}, 1: {m3s: m1s}, 2: {m3s: m2s}, 3: {m2s: m1s, m3s: m1s}}
+rows, seen = [], []
+for tag_, fn, keys in (
+    ("that", formulate_theta_hat_angle, [(1, 2), (2, 3), (3, 1)]),
+    ("scat", formulate_scattering_angle, [(1, 2), (2, 1), (1, 3), (3, 1), (2, 3), (3, 2)]),
+    ("zeta", formulate_zeta_angle, [(1, 1, 3), (1, 2, 1), (1, 2, 3), (2, 2, 1), (2, 3, 2), (2, 3, 1),
+                                    (3, 3, 2), (3, 1, 3), (3, 1, 2)]),
+):
+    for idx in keys:
+        try:
+            raw = sp.sympify(fn(*idx)[1])
+        except Exception:  # noqa: BLE001  (then the table above records the raise; nothing to identify)
+            continue
+        gname = f"gen_{tag_}_" + "_".join(map(str, idx))
+        if gname not in defs:
+            continue
+        for t, sub in IDENT.items():
+            vname = f"{gname}_eq{t}"
+            defs[vname] = raw.xreplace(sub).doit()
+            rows.append(f"({t}%nat, {gname}, {vname})")
+defs["eqmass_variants"] = "RAW:([\n  " + ";\n  ".join(rows) + "] : list (nat * expr * expr))"
+stats["eqmass_variants"] = len(rows)
 write_gen(out, "bridge/symgen_C19.py", defs)
 print("ok", stats)
